@@ -20,6 +20,14 @@ CALLER_TABLE = [
      "children are released exactly when the node's storage is given up"),
     ("C02 C04 C13", M + "forest::modifyReducedNodeInPlace", {M + "mtmdd_forest::swapAdjacentVariables", M + "evmdd_pluslong::swapAdjacentVariables"},
      "in-place rewrite of a live node is legal only inside an adjacent-variable swap"),
+    ("C10 C04 C05", M + "forest::getTransparentEdge", {M + "simple_separated::fillUnpacked", M + "simple_separated::makeFullNode", M + "unpacked_node::_clear", M + "user_unary_op::user_unary_op"},
+     "the transparent edge is a storage / reduction notion (what an absent child means); an operation never substitutes the target's transparent edge for a computed or converted value "
+     "(user_unary reads the *argument's* transparent edge once, to evaluate F(0))"),
+    ("C10 C04 C05", M + "forest::getTransparentNode", {M + "forest::createReducedNode", M + "forest::validateDownPointers", M + "mtmxd_forest::swapAdjacentVariablesOf", M + "simple_separated::areDuplicates",
+                                                M + "simple_separated::fillUnpacked", M + "simple_separated::getDownPtr", M + "simple_separated::hashNode", M + "simple_separated::isSingletonNode",
+                                                M + "simple_separated::makeFullNode", M + "simple_separated::makeNode", M + "simple_separated::makeSparseNode", M + "unpacked_node::_clear",
+                                                M + "unpacked_node::computeHash", M + "unpacked_node::initFrom"},
+     "same: only node creation, storage and the unpacked-node code reason about transparent children"),
     ("C02 C04 C13", M + "forest::swapNodes", {M + "mtmxd_forest::swapAdjacentVariablesByVarSwap"}, "handle exchange is a reordering primitive"),
     ("C02 C13", M + "forest::setNodeLevel", {M + "mtmdd_forest::swapAdjacentVariables", M + "evmdd_pluslong::swapAdjacentVariables", M + "mtmxd_forest::swapAdjacentVariablesByVarSwap"},
      "relabelling a live node's level is a reordering primitive"),
